@@ -1169,6 +1169,9 @@ def _re_stub():
     for n in names: setattr(Compiled, n, cm(n))
     Compiled.sub = cm("sub", True)
     Stub.compile = staticmethod(lambda pattern, flags=0: Compiled(pattern, flags))
+    import re as _real_re
+    Stub.escape = staticmethod(_real_re.escape)          # a pure function of the (concrete) pattern text
+    Stub.Pattern = Compiled
     return Stub
 
 @op
